@@ -23,6 +23,16 @@ def make_cases(rng, tier, n):
             c["ops"] = [("commit", rng.choice("lc"), []), ("push", False, []), ("wipecache",), ("fetch", False, []), ("status", []),
                         ("clone", [b"workdir", b"workdir/inner"] if c.get("cwd") else []), ("checkout", rng.choice("lc"), False, [])]
             c["hist_info"] = dict(edits_between=False)
+        elif i % 20 == 7:
+            # an EMPTY file is a legitimate object (the digest of no bytes): it is committed and then fetch / pull run although
+            # nothing (or not everything) was pushed — whatever they do, the object stays
+            arts_ = s1eval.artifacts(c)
+            d_ = [a for a in arts_ if "d" in a[1]]
+            tgt = (d_[0][0] + b"/empty_marker") if d_ else arts_[0][0]
+            c["init"] = [e for e in c["init"] if e[1] != tgt] + [("file", tgt, "g:1:0")]
+            c["ops"] = [("commit", rng.choice("lc"), []), ("fetch", False, []), ("status", []), ("push", False, []), ("fetch", False, []),
+                        ("pull", rng.choice("lc"), False, [])]
+            c["hist_info"] = dict(edits_between=False)
         else:
             gen.gen_history(rng, c, rng.randrange(5, 12 if tier == "quick" else 40))
         if c["hist_info"]["edits_between"]:
